@@ -121,7 +121,7 @@ func (t *rawTarget) handle(c net.Conn) {
 			io.WriteString(c, "HTTP/1.1 200 OK\r\nContent-Type: text/plain\r\nTransfer-Encoding: chunked\r\n\r\n5\r\nhello\r\n8\r\nwor")
 			return
 		case "upgrade":
-			io.WriteString(c, "HTTP/1.1 101 Switching Protocols\r\nConnection: Upgrade\r\nUpgrade: websocket\r\n\r\n")
+			io.WriteString(c, "HTTP/1.1 101 Switching Protocols\r\nConnection: Upgrade\r\nUpgrade: websocket\r\nX-Resp: u1\r\n\r\n")
 			io.WriteString(c, "hello-from-target")
 			buf := make([]byte, 64)
 			c.Read(buf)
@@ -170,6 +170,8 @@ func genFaults(rng *mrand.Rand, n int, tier string, w *bufio.Writer) {
 			host := pick(rng, []string{"f.test", "f.test", "f.test", "f.test:8080", "f.test:8080", "nosuch.test"})
 			if (mode == "silence" || strings.HasPrefix(mode, "slow")) && chance(rng, 30) && host != "nosuch.test" {
 				client = "abort"
+			} else if (mode == "silence" || strings.HasPrefix(mode, "slow") || mode == "refuse" || mode == "ok:200:10") && chance(rng, 35) && !bufreq {
+				client = "expect"
 			}
 			fmt.Fprintf(w, "fault mode=%s client=%s method=%s path=%s query=%s host=%s hdr=%s\n", mode, client, pick(rng, []string{"GET", "POST"}),
 				hexB([]byte(path)), hexB([]byte(query)), hexB([]byte(host)), hexB([]byte(pick(rng, []string{"", "v1"}))))
@@ -268,7 +270,10 @@ func runFaults(t *testing.T, fx *fixtures, c verifCase, w *bufio.Writer) {
 				// no request bodies here: under synctest net/http's 200 ms request-body probe timer makes
 				// the transport's behaviour scheduler-dependent (bodies are covered by the rewrite and
 				// buffer engines)
-				if kv["method"] == "POST" {
+				if kv["client"] == "expect" {
+					// a small body announced with `Expect: 100-continue` (sent at once, as curl does after its own timeout)
+					raw.WriteString("Expect: 100-continue\r\nContent-Length: 5\r\n\r\nhello")
+				} else if kv["method"] == "POST" {
 					raw.WriteString("Content-Length: 0\r\n\r\n")
 				} else {
 					raw.WriteString("\r\n")
@@ -297,7 +302,9 @@ func runFaults(t *testing.T, fx *fixtures, c verifCase, w *bufio.Writer) {
 					resp, err := http.ReadResponse(br, nil)
 					early := 0
 					for err == nil && resp.StatusCode >= 100 && resp.StatusCode <= 199 && resp.StatusCode != 101 {
-						early++ // informational responses precede the final one
+						if resp.StatusCode != 100 { // `100 Continue` is the front server's own answer to Expect
+							early++ // informational responses precede the final one
+						}
 						resp, err = http.ReadResponse(br, nil)
 					}
 					if err != nil {
